@@ -159,13 +159,14 @@ reg(Composite('belt.wblD', _impl_wbl('D'), lambda c: {'ret': 0, 'buf': R.wbl_dec
 reg(Composite('belt.wblD2', _impl_wbl('D2'), lambda c: {'ret': 0, 'buf': R.wbl_decr(c['key'], c['buf'])}, group='belt'))
 
 def _impl_compr(lib, c, A, fill):
-    h = A.buf(c['h']); x = A.buf(c['x']); s = A.buf(16, fill)
+    h = A.buf(c['h']); x = A.buf(c['x']); s = A.buf(c.get('s', bytes(16)))
     stack = A.buf(lib.sz('beltCompr_deep'), fill)
     lib.call('beltCompr2', s, h, x, stack)
     return {'ret': 0, 's': s.get(), 'h': h.get()}
 def _compr_ref(c):
     # sigma1/sigma2 of X || h  (u32 words are little-endian octets on this platform)
     s, y = R.compr(c['x'] + c['h'])
+    s = bytes(a ^ b for a, b in zip(s, c.get('s', bytes(16))))   # S is added to the caller's s
     return {'ret': 0, 's': s, 'h': y}
 reg(Composite('belt.compr2', _impl_compr, _compr_ref, group='belt'))
 
@@ -310,7 +311,7 @@ def gen_cases(tier):
         out.append(('belt.hmacG2', dict(src=data(45), key=data(40, 3), tlen=tl)))
     # compress
     for kd in (0, 1, 2, 3):
-        out.append(('belt.compr2', dict(h=data(32, kd), x=data(32, (kd + 1) % 4))))
+        out.append(('belt.compr2', dict(h=data(32, kd), x=data(32, (kd + 1) % 4), s=data(16, (kd + 2) % 4))))
     # KRP: all admissible (n, m)
     for n in (16, 24, 32):
         for m in (16, 24, 32):
